@@ -109,4 +109,15 @@ FirstComponentRule(l) ==
 \* Prop: one observed try_from_multiaddr on an address of class c (binary or textual form);
 \* appendRt: appending /p2p/<p> to that address and reading back gives p
 PropMaddr(c, got, appendRt) == got = ExpectedMaddr(c) /\ appendRt
+
+\* The library's own appender AddressRecord::new(peer P, address, score): the address is
+\* kept when it ENDS with /p2p/X (reads back X), otherwise /p2p/P is appended (reads back P);
+\* what `new` produced is accepted by AddressRecord::from_multiaddr.
+ExpectedRecordNew(c) == IF ExpectedMaddr(c) # "none" THEN ExpectedMaddr(c) ELSE "P"
+\* the rule on the layout; negative model: append only if NO /p2p component occurs anywhere
+RecordNewLastRule(l) == IF LastComponentRule(l) # "none" THEN LastComponentRule(l) ELSE "P"
+RecordNewAnyRule(l) == IF \E i \in 1..Len(l) : IdOf(l[i]) # "none" THEN LastComponentRule(l) ELSE "P"
+\* newGot: try_from_multiaddr of the record's address; newOk: the address is the expected one
+\* (unchanged or with /p2p/P appended) and from_multiaddr accepts it
+PropRecordNew(c, newGot, newOk) == newGot = ExpectedRecordNew(c) /\ newOk
 =============================================================================
